@@ -110,6 +110,10 @@ def mk(kind, *args):
     base = a[0].as_atom() if isinstance(a[0], Poly) else None
     if base is not None and base.kind == "seq" and ints[1] is not None and -len(base.args) <= ints[1] < len(base.args):
       return base.args[ints[1]]
+    if base is not None and base.kind == "dictlit":
+      for i in range(0, len(base.args), 2):
+        if base.args[i] == a[1]:
+          return base.args[i + 1]
     if base is not None and base.kind == "map":
       elt, bv, src = base.args
       return rebuild(elt.deep_subst(bv, a[1]))   # map(elt(bv), bv, src)[i] = elt(i)
@@ -457,6 +461,12 @@ class Walker:
   def ev_Dict(self, e, st):
     if not e.keys:
       return mk("emptydict")
+    if all(k is not None for k in e.keys) and len(e.keys) <= 64:
+      items = []
+      for k, v in zip(e.keys, e.values):
+        items.append(as_poly(self.ev(k, st)))
+        items.append(as_poly(self.ev(v, st)))
+      return Poly.atom(Atom("dictlit", *items))
     return self.sym("dict")
 
   def ev_UnaryOp(self, e, st):
